@@ -139,5 +139,5 @@ def run(tier, seed):
     })
     ck.assumptions += ["reads of attributes and queued events: data-version filters, event filters and subscription priming / reports go through the same writer loop (report_attributes / report_events / send) but are not driven here",
                        "the transmit buffer has the size the crate is built with (MAX_EXCHANGE_TX_BUF_SIZE); smaller buffers are covered only by the model (Cap)",
-                       "a value larger than 900 bytes may be answered by a ResourceExhausted status (no message can carry it); smaller values must be delivered"]
+                       "a value larger than the build's transmit buffer (MAX_EXCHANGE_TX_BUF_SIZE) less 250 bytes may be answered by a ResourceExhausted status (no message can carry it); smaller values must be delivered; the largest datagram allowed is the transport's MAX_TX_PACKET_SIZE"]
     return ck.finish()
